@@ -117,10 +117,12 @@ def private_tools(ctx):
     raise last
 
 
-def run_packer(exe, shim, mode, args, cwd, dump=None, log=None, timeout=120, inomap=None):
+def run_packer(exe, shim, mode, args, cwd, dump=None, log=None, timeout=120, inomap=None, statspec=None):
     env = {"PATH": os.environ.get("PATH", "/usr/bin:/bin"), "LD_PRELOAD": shim, "RDSHIM_MODE": mode, "LC_ALL": "C"}
     if inomap:
         env["RDSHIM_INOMAP"] = inomap
+    if statspec:
+        env["RDSHIM_STAT"] = statspec
     if log:
         env["RDSHIM_LOG"] = log
     if dump:
@@ -673,13 +675,80 @@ def parse_shim_imap(path):
 # --------------------------------------------------------------------------------------------
 
 def split_mode(m):
-    """'<readdir order>[@<inode number assignment>]' -> (order, assignment or '')"""
-    o, _, i = m.partition("@")
+    """'<readdir order>[@<inode number assignment>][%<stat profile>]' -> (order, assignment or '')"""
+    o, _, i = m.partition("%")[0].partition("@")
     return o, i
 
 
+def stat_of(m):
+    """the stat profile of a mode ('' = the host's own values)"""
+    return m.partition("%")[2]
+
+
+def strip_stat(m):
+    return m.partition("%")[0]
+
+
 def mtag(m):
-    return m.replace(":", "_").replace("@", "+")
+    return m.replace(":", "_").replace("@", "+").replace("%", "=")
+
+
+# --------------------------------------------------------------------------------------------
+# host-specific stat fields that are not content either: st_size / st_nlink of directories, st_blocks, st_blksize,
+# st_atime, st_ctime, st_rdev of non-devices, d_type of directory entries (DT_UNKNOWN), st_size of fifos / sockets /
+# device nodes; st_mtime when the packer is told not to keep times.  Profiles after what real file systems report.
+# --------------------------------------------------------------------------------------------
+
+STAT_PROFILES = {
+    # ramfs / procfs / sysfs / CIFS / many FUSE: directories have size 0 whatever they hold, no block accounting
+    "ramfs": dict(dsize=0, dnlink=2, blocks=0, blksize=4096, atime=0, ctime=0, nsize=0, rdev=0, mtime=86400),
+    # btrfs: st_nlink of a directory is 1, its size grows with the names in it (small numbers)
+    "btrfs": dict(dsize=1, dnlink=1, blocks=0, blksize=4096, atime=1700000000, ctime=1700000001, mtime=1700000002),
+    # network / FUSE file systems: huge preferred I/O size, no d_type, garbage in unused fields
+    "nfs": dict(dsize=4096, dnlink=2, blocks=8, blksize=1048576, dtype=0, atime=1, ctime=2, rdev=(1 << 32) + 77, nsize=4096,
+                mtime=1),
+    # the largest values the fields hold
+    "huge": dict(dsize=(1 << 62) + 5, dnlink=(1 << 31) - 1, blocks=(1 << 53) + 1, blksize=1 << 30, atime=(1 << 33) + 3,
+                 ctime=(1 << 34) + 4, rdev=(1 << 63) + 9, nsize=(1 << 40) + 1, dtype=0, mtime=(1 << 32) + 5),
+    # directories "empty" by size, populated by link count (and the reverse of what ext4 says)
+    "zero": dict(dsize=0, dnlink=0, blocks=0, blksize=0, atime=0, ctime=0, nsize=0, dtype=0, rdev=1, mtime=0),
+    # only the entry type is withheld (XFS without ftype, old reiserfs: every d_type is DT_UNKNOWN)
+    "dtype": dict(dtype=0),
+}
+STAT_NAMES = ["ramfs", "btrfs", "nfs", "huge", "zero", "dtype"]
+STAT_KEYS = ["dsize", "nsize", "dnlink", "blocks", "blksize", "atime", "ctime", "mtime", "rdev", "dtype"]
+
+
+def keeps_time(case):
+    """does any part of the run take the host's mtime as content (-k / -keeptime)?"""
+    if case.kind == "dir":
+        return "-k" in case.opts or "--keep-time" in case.opts
+    return any(l[0] == "glob" and "-keeptime" in l for l in case.packfile)
+
+
+def stat_spec(case, profile):
+    """the key -> value dict of a profile for this case: st_mtime is varied only when times are not kept"""
+    if not profile:
+        return {}
+    d = dict(STAT_PROFILES[profile])
+    if keeps_time(case):
+        d.pop("mtime", None)
+    return d
+
+
+def stat_env(d):
+    return ",".join("%s=%d" % (k, d[k]) for k in STAT_KEYS if k in d)
+
+
+def identity_imap(root):
+    """marks the objects of the packed tree for the shim (RDSHIM_STAT applies to the listed objects only)"""
+    return {(st.st_dev, st.st_ino): (st.st_dev, st.st_ino) for _, st in scan_walk(root)}
+
+
+def check_shim_stat(spec, log, rc, what):
+    if rc == 0 and spec and os.path.exists(log) and not any(l.startswith("S ") for l in open(log)):
+        raise RuntimeError("stat shim replaced nothing in a successful run (%s): the tool no longer obtains its stat data "
+                           "through stat/lstat/fstat/fstatat/statx, the injected values are not in effect" % what)
 
 
 def scan_walk(root):
@@ -795,20 +864,28 @@ def check_shim_imap(imap, logged, rc, what):
                            "through stat/lstat/fstat/fstatat/statx, the injected inode numbers are not in effect" % what)
 
 
-def host_lines(path, order, imap=None):
+def host_lines(path, order, imap=None, st_over=None):
     """H lines (pre-order) of the directory `path` (bytes), children in the logged readdir order; device and inode
-    numbers as the scanner saw them (through the shim's remapping, if one was in effect)."""
+    numbers, st_mtime and st_rdev as the scanner saw them (through the shim's remapping / RDSHIM_STAT, if in effect)."""
     lines = []
     imap = imap or {}
+    st_over = st_over or {}
+
+    def seen(st):
+        """(mtime, rdev) as handed to the scanner"""
+        mt = st_over["mtime"] if "mtime" in st_over else st.st_mtime_ns // 10 ** 9
+        rd = st_over["rdev"] if "rdev" in st_over and not (stat.S_ISBLK(st.st_mode) or stat.S_ISCHR(st.st_mode)) else st.st_rdev
+        return mt, rd
 
     def emit(p, name, depth):
         st = os.lstat(p)
         t = TYPE_CHAR[stat.S_IFMT(st.st_mode)]
         tgt = os.readlink(p) if t == "l" else b""
         dev, ino = imap.get((st.st_dev, st.st_ino), (st.st_dev, st.st_ino))
+        mt, rd = seen(st)
         lines.append("H %d %s %s %o %d %d %d %d %d %d %s" % (
-            depth, hexs(name), t, stat.S_IMODE(st.st_mode), st.st_uid, st.st_gid, st.st_mtime_ns // 10 ** 9,
-            dev, ino, st.st_rdev, hexs(tgt)))
+            depth, hexs(name), t, stat.S_IMODE(st.st_mode), st.st_uid, st.st_gid, mt,
+            dev, ino, rd, hexs(tgt)))
         if t == "d" and name not in (b".", b".."):
             names = order.get(os.path.realpath(p))
             if names is None:
@@ -817,9 +894,10 @@ def host_lines(path, order, imap=None):
                 if c in (b".", b".."):
                     s2 = os.lstat(os.path.join(p, c))
                     d2, i2 = imap.get((s2.st_dev, s2.st_ino), (s2.st_dev, s2.st_ino))
+                    m2, r2 = seen(s2)
                     lines.append("H %d %s d %o %d %d %d %d %d %d -" % (
                         depth + 1, hexs(c), stat.S_IMODE(s2.st_mode), s2.st_uid, s2.st_gid,
-                        s2.st_mtime_ns // 10 ** 9, d2, i2, s2.st_rdev))
+                        m2, d2, i2, r2))
                 else:
                     emit(os.path.join(p, c), c, depth + 1)
 
@@ -999,7 +1077,7 @@ def release_case(case):
 # tie 1: h_scan under the shim vs the extracted model
 # --------------------------------------------------------------------------------------------
 
-def model_input(case, dump_lines, order, sorted_flag, imap=None):
+def model_input(case, dump_lines, order, sorted_flag, imap=None, st_over=None):
     """Text for the model driver, built from the case, the iterator configurations the harness logged
     (B lines) and the readdir orders the shim logged.  Returns (text, complete)."""
     out = ["CASE %s" % case.cid,
@@ -1016,7 +1094,7 @@ def model_input(case, dump_lines, order, sorted_flag, imap=None):
             assert hpath.startswith(root + b"/")
             fprefix = hexs(hpath[len(root) + 1:])
         op = ["SCAN %d %s %s %s %s %s %s %s %s" % (sorted_flag, flags, duid, dgid, dmode, dmtime, prefix, pattern, fprefix)]
-        op += host_lines(hpath, order, imap)
+        op += host_lines(hpath, order, imap, st_over)
         op.append("ENDSCAN")
         return op
 
@@ -1064,21 +1142,27 @@ def tie_scan_one(tools, case, mode, workdir):
         if os.path.exists(p):
             os.unlink(p)
     imap, inofile = {}, None
+    st_over = stat_spec(case, stat_of(mode))
     if imode:
         imap, _ = ino_assignment(case.root, imode)
+    elif st_over:
+        imap = identity_imap(case.root)
+    if imap:
         inofile = write_inomap(imap, os.path.join(workdir, "inomap.t.%s" % tag))
-    rc, err = run_packer(tools["h_scan"], tools["shim"], rmode, case.args(img), workdir, dump=dump, log=log, inomap=inofile)
+    rc, err = run_packer(tools["h_scan"], tools["shim"], rmode, case.args(img), workdir, dump=dump, log=log, inomap=inofile,
+                         statspec=stat_env(st_over))
     dlines = open(dump).read().split("\n") if os.path.exists(dump) else []
     order = parse_shim_log(log)
     # the model gets the numbers the scanner saw: the shim's log of applied remappings is checked against the map
     check_shim_imap(imap, parse_shim_imap(log), rc, "tie, case %s, %s" % (case.cid, mode))
+    check_shim_stat(st_over, log, rc, "tie, case %s, %s" % (case.cid, mode))
     impl = [l for l in dlines if l and not l.startswith("B ")]
     res = dict(mode=mode, rc=rc, stderr=err[-300:], impl=impl, ok=True, kind="", entries=sum(1 for l in impl if l[0] == "S"),
-               _dlines=dlines, _order=order, _imap=imap)
+               _dlines=dlines, _order=order, _imap=imap, _st=st_over)
     if rc not in (0, 1):
         res.update(ok=False, kind="crash", detail="harness died with status %d: %s" % (rc, err[-300:]))
         return res
-    text, complete = model_input(case, dlines, order, 1, imap)
+    text, complete = model_input(case, dlines, order, 1, imap, st_over)
     mlines = strip_model(run_model(tools, text))
     res["model"] = mlines
     model_failed = any(l.startswith("X ") or l in ("R -1", "R FUEL") for l in mlines)
@@ -1091,7 +1175,7 @@ def tie_scan_one(tools, case, mode, workdir):
         return res
     if model_failed or mlines != impl:
         # diagnosis: does the implementation behave like the unrepaired (non-sorting) native iterator?
-        text0, _ = model_input(case, dlines, order, 0, imap)
+        text0, _ = model_input(case, dlines, order, 0, imap, st_over)
         m0 = strip_model(run_model(tools, text0))
         diff = next((i for i, (a, b) in enumerate(zip(impl, mlines)) if a != b), min(len(impl), len(mlines)))
         res.update(ok=False, kind="unsorted" if m0 == impl else "mismatch", first_diff=diff,
@@ -1132,7 +1216,7 @@ def dir_tags(path):
     return tags
 
 
-def sensitivity(tools, case, dlines, order, imap=None):
+def sensitivity(tools, case, dlines, order, imap=None, st_over=None):
     """For every directory D the scan opened: would an iterator that sorts every directory except D (D handed out
     in the logged order instead) build another fstree / inode numbering / file list?  Computed with the model of the
     non-sorting iterator fed with sorted listings everywhere but in D.  Returns [(tags, sensitive)]: a partial
@@ -1142,7 +1226,7 @@ def sensitivity(tools, case, dlines, order, imap=None):
     keys = [d for d in order if d == root or d.startswith(root + b"/")]
     texts = []
     for i, d in enumerate([None] + keys):
-        t, complete = model_input(case, dlines, {} if d is None else {d: order[d]}, 0, imap)
+        t, complete = model_input(case, dlines, {} if d is None else {d: order[d]}, 0, imap, st_over)
         if not complete:
             return []
         texts.append("CASE v%d\n" % i + t.split("\n", 1)[1])
@@ -1283,13 +1367,19 @@ def order_oracle(tools, case, modes, workdir, assigned=None):
         if os.path.exists(log):
             os.unlink(log)
         imap, inofile = {}, None
+        st_over = stat_spec(case, stat_of(m))
         if imode:
             imap, desc = ino_assignment(case.root, imode)
-            inofile = write_inomap(imap, os.path.join(workdir, "inomap.o.%s" % mtag(m)))
             if assigned is not None:
                 assigned[m] = desc
-        rc, err = run_packer(tools["gensquashfs"], tools["shim"], rmode, case.args(img), workdir, log=log, inomap=inofile)
+        elif st_over:
+            imap = identity_imap(case.root)
+        if imap:
+            inofile = write_inomap(imap, os.path.join(workdir, "inomap.o.%s" % mtag(m)))
+        rc, err = run_packer(tools["gensquashfs"], tools["shim"], rmode, case.args(img), workdir, log=log, inomap=inofile,
+                             statspec=stat_env(st_over))
         check_shim_imap(imap, parse_shim_imap(log), rc, "oracle, case %s, %s" % (case.cid, m))
+        check_shim_stat(st_over, log, rc, "oracle, case %s, %s" % (case.cid, m))
         seen = parse_shim_log(log)
         root = os.path.realpath(os.fsencode(case.root))
         listed[m] = {(d[len(root) + 1:].decode("utf-8", "surrogateescape") or "."):
@@ -1676,7 +1766,14 @@ def modes_for(ctx, case, rnd, k, ci=0):
     if case.mount:
         # two devices: the same inode numbers on both (asc), other device numbers that differ in their minor part only
         out += ["sorted@asc", "sorted@dev2", "sorted@devhi"]
-    return list(dict.fromkeys(out))
+    out = list(dict.fromkeys(out))
+    # ... and two (thorough: all) runs that repeat an earlier one with the OTHER host-specific stat fields replaced as well
+    # (STAT_PROFILES: st_size / st_nlink of directories, st_blocks, st_blksize, st_atime, st_ctime, st_rdev of non-devices,
+    # d_type = DT_UNKNOWN, st_mtime unless times are kept); the profiles rotate with the case
+    ns = len(STAT_NAMES)
+    profs = [STAT_NAMES[(2 * ci) % ns], STAT_NAMES[(2 * ci + 1) % ns]] if k <= 6 else STAT_NAMES
+    out += ["%s%%%s" % (out[1 + j % 2], pr) for j, pr in enumerate(profs)]
+    return out
 
 
 def check_case(ctx, tools, case, tie_modes, oracle_modes):
@@ -1689,7 +1786,8 @@ def check_case(ctx, tools, case, tie_modes, oracle_modes):
                 out["ties"].append(tie_scan_one(tools, case, m, wd))
             broken = any(not t["ok"] for t in out["ties"])
             if case.shaped and out["ties"] and not out["ties"][0].get("failed_run") and out["ties"][0]["rc"] == 0:
-                out["sens"] = sensitivity(tools, case, out["ties"][0]["_dlines"], out["ties"][0]["_order"], out["ties"][0].get("_imap"))
+                out["sens"] = sensitivity(tools, case, out["ties"][0]["_dlines"], out["ties"][0]["_order"], out["ties"][0].get("_imap"),
+                                          out["ties"][0].get("_st"))
             modes = list(oracle_modes)
             if broken:
                 modes = list(dict.fromkeys(modes + ["none", "sorted", "reverse", "rot:1", "rot:2", "rot:3", "rrot:1", "rrot:2"] +
@@ -1704,10 +1802,29 @@ def check_case(ctx, tools, case, tie_modes, oracle_modes):
             out["assigned"] = assigned
             if len(groups) > 1:
                 gs = sorted(groups.items(), key=lambda kv: -len(kv[1]))
-                ma = sorted(gs[0][1], key=lambda m: m == "none")[0]
-                mb = sorted(gs[1][1], key=lambda m: m == "none")[0]
+                ma = sorted(gs[0][1], key=lambda m: (m == "none", bool(stat_of(m))))[0]
+                mb = sorted(gs[1][1], key=lambda m: (m == "none", bool(stat_of(m))))[0]
+                if stat_of(ma) != stat_of(mb):
+                    # do the replaced stat fields alone make the difference?  compare a run with its twin without them
+                    for mx in (mb, ma):
+                        if not stat_of(mx):
+                            continue
+                        base = strip_stat(mx)
+                        if base not in res:
+                            r2, _, l2 = order_oracle(tools, case, [base], wd, assigned)
+                            res[base] = r2[base]
+                            listed.update(l2)
+                            groups.setdefault(res[base], []).append(base)
+                        if res[base] != res[mx]:
+                            ma, mb = base, mx
+                            break
+                        # the twin behaves like the run with the profile: go on with the twin
+                        if mx == mb:
+                            mb = base
+                        else:
+                            ma = base
                 (oa, ia), (ob, ib) = split_mode(ma), split_mode(mb)
-                if oa != ob and ia != ib:
+                if oa != ob and ia != ib and stat_of(ma) == stat_of(mb):
                     # which of the two is it?  one more run: the readdir order of the one under the numbers of the other
                     mx = oa + ("@" + ib if ib else "")
                     if mx not in res:
@@ -1752,14 +1869,24 @@ def report_case(ctx, r, stats):
         ma, mb = r["pair"]
         va, vb = r["oracle"][ma], r["oracle"][mb]
         ma, mb = [ma], [mb]
-        by_numbers = split_mode(ma[0])[0] == split_mode(mb[0])[0]
+        by_stat = strip_stat(ma[0]) == strip_stat(mb[0]) and stat_of(ma[0]) != stat_of(mb[0])
+        by_numbers = split_mode(ma[0])[0] == split_mode(mb[0])[0] and not by_stat
         stats["oracle_bad_numbers"] = stats.get("oracle_bad_numbers", 0) + (1 if by_numbers else 0)
-        f09 = has_multilink(case.spec) and case.hl_active() and not by_numbers
-        sig = F09_SIG if f09 else ("host-number-dependent-image:%s" if by_numbers else "order-dependent-image:%s") % case.kind
+        stats["oracle_bad_stat"] = stats.get("oracle_bad_stat", 0) + (1 if by_stat else 0)
+        f09 = has_multilink(case.spec) and case.hl_active() and not by_numbers and not by_stat
+        sig = F09_SIG if f09 else ("host-stat-dependent-image:%s" if by_stat else
+                                   "host-number-dependent-image:%s" if by_numbers else "order-dependent-image:%s") % case.kind
         show = lambda v: ("sha256 " + v[1][:16]) if v[1] else "exit %d" % v[0]
         opts_s = " ".join(case.opts + (["-F pack.txt"] if case.kind == "file" else []))
         diff_s = "; " + "; ".join(r.get("diffdesc") or []) if r.get("diffdesc") else ""
-        if by_numbers:
+        if by_stat:
+            prof = stat_of(mb[0]) or stat_of(ma[0])
+            what = ("gensquashfs %s writes different images for the same directory, enumerated in the same order (%s) with the same "
+                    "inode / device numbers, when only host-specific stat fields that are not content differ: the host's values "
+                    "-> %s, profile '%s' [%s] -> %s%s" % (
+                        opts_s, strip_stat(ma[0]), show(va if not stat_of(ma[0]) else vb), prof, stat_env(stat_spec(case, prof)),
+                        show(vb if not stat_of(ma[0]) else va), diff_s))
+        elif by_numbers:
             asg = r.get("assigned") or {}
             linked = set(e["p"] for e in case.spec if e["k"] == "h") | set(e["of"] for e in case.spec if e["k"] == "h")
             def brief(m):
@@ -1782,6 +1909,7 @@ def report_case(ctx, r, stats):
             ctx.violation(sig, what, dict(case=case.to_json(), modes=[ma[0], mb[0]],
                                           readdir_orders={m: (r.get("listed") or {}).get(m) for m in (ma[0], mb[0])},
                                           inode_numbers={m: (r.get("assigned") or {}).get(m, "the host's own") for m in (ma[0], mb[0])},
+                                          stat_fields={m: stat_spec(case, stat_of(m)) for m in (ma[0], mb[0]) if stat_of(m)},
                                           result={m: list(v) for m, v in (r["oracle"] or {}).items()},
                                           packfile_text=packfile_text(case.packfile) if case.packfile else None))
     for v in r.get("variants") or []:
@@ -1840,7 +1968,9 @@ def run(ctx):
     tools = private_tools(ctx)
     ctx.trusted += [
         "props/C11/shim_readdir.c (LD_PRELOAD: permutes and logs what readdir returns; remaps st_dev/st_ino/d_ino of stat, lstat, "
-        "fstat, fstatat, statx, readdir results through a given bijection and logs what it applied), props/C11/h_scan.c + h_dump.h "
+        "fstat, fstatat, statx, readdir results through a given bijection and logs what it applied; replaces the other host-specific "
+        "stat fields - directory st_size/st_nlink, st_blocks, st_blksize, st_atime, st_ctime, st_rdev of non-devices, d_type, st_mtime "
+        "when times are not kept - by the values of a profile), props/C11/h_scan.c + h_dump.h "
         "(gensquashfs with a logging iterator wrapper and an fstree dump), props/C11/h_fstree.c, props/C11/driver.ml + stubs.c, "
         "props/C11/driver_img.ml; vlib/sqfsimg.py (decodes the real image for tie 1b)",
         "python glue of props/C11/check.py: lstat of the generated tree -> model input; option/pack-file parsing of "
@@ -1894,6 +2024,8 @@ def run(ctx):
             tie_modes = [ms[2], ms[4]] if c.shaped else [ms[2], ms[3]]
         else:
             tie_modes = [ms[2], ms[0], ms[3], ms[4]]
+        # the last tie run sees the other host-specific stat fields replaced too (the model is fed st_mtime / st_rdev as replaced)
+        tie_modes[-1] = "%s%%%s" % (strip_stat(tie_modes[-1]), STAT_NAMES[(ci + 3) % len(STAT_NAMES)])
         jobs.append((c, tie_modes, ms))
     # the mount cases must not run concurrently with the removal of other scratch dirs: they are self-contained
     t_tool = time.time()
@@ -1920,6 +2052,13 @@ def run(ctx):
             "(%d not comparable: the host did not reproduce the contents), %d with another image"
             % (" ".join(INO_MODES), stats.get("oracle_bad_numbers", 0), stats.get("variants_run", 0), " ".join(CREATION_VARIANTS),
                stats.get("variants_on", "-"), stats.get("variants_skipped", 0), stats.get("variants_bad", 0)))
+    n_stat = sum(1 for j in jobs for m in j[2] if stat_of(m))
+    ctx.log("host stat fields: %d oracle runs and %d tie runs repeat another run with st_size / st_nlink of directories, st_blocks, "
+            "st_blksize, st_atime, st_ctime, st_rdev of non-devices, st_size of fifos / sockets / nodes, d_type (DT_UNKNOWN) and - unless "
+            "times are kept (%d of %d cases keep them) - st_mtime replaced (profiles %s; the model is fed st_mtime / st_rdev as replaced): "
+            "%d cases whose image depends on them alone"
+            % (n_stat, sum(1 for j in jobs for m in j[1] if stat_of(m)), sum(1 for c in cases if keeps_time(c)), len(cases),
+               " ".join(STAT_NAMES), stats.get("oracle_bad_stat", 0)))
     ctx.log("image level (tie 1b): %d images decoded, %d compared byte for byte (%d table bytes), %d with multi-block tables skipped"
             % (stats.get("image_runs", 0), stats.get("image_exact", 0), stats.get("image_bytes", 0),
                stats.get("image_runs", 0) - stats.get("image_exact", 0)))
@@ -1944,7 +2083,8 @@ def run(ctx):
         "(host order, sorted, reverse - together both relative orders of every pair of siblings -, a rotation of each, seeded "
         "shuffles), each but the host order under an injected bijection of the inode / device numbers (ascending, descending, random, "
         "multiply-linked files smallest / largest / in the middle, equal low 32 bits, equal modulo 64, around 2^63, other device "
-        "numbers), plus second copies of the contents created in another order on tmpfs; component level: %d add sequences (2 random orders of each entry set, 40%% 'wild' "
+        "numbers), of these two (thorough: six) repeated with the remaining host-specific stat fields replaced by a profile (ramfs: "
+        "directory size 0; btrfs: directory nlink 1; nfs: no d_type, 1 MiB st_blksize; huge; zero; dtype), plus second copies of the contents created in another order on tmpfs; component level: %d add sequences (2 random orders of each entry set, 40%% 'wild' "
         "with duplicate paths, unclean/dangling/chained hard link targets, out-of-range mtimes). non-trivial = packer succeeded on a "
         "tree with >= 3 entries / component dump with > 4 lines"
         % (ctx.seed, len(cases), n_links, n_shaped, len(jobs[0][1]), len(jobs[0][2]), cstats["cases"]))
@@ -1959,6 +2099,8 @@ def run(ctx):
                                         component=cstats)
     ctx.coverage["search_oracle"] = dict(images_hashed=n_oracle + stats.get("variants_run", 0), order_dependent_cases=stats["oracle_bad"],
                                          number_dependent_cases=stats.get("oracle_bad_numbers", 0),
+                                         stat_profile_runs=n_stat, stat_profiles=STAT_PROFILES,
+                                         stat_field_dependent_cases=stats.get("oracle_bad_stat", 0),
                                          creation_order_copies=stats.get("variants_run", 0),
                                          creation_order_copies_not_comparable=stats.get("variants_skipped", 0),
                                          creation_order_dependent=stats.get("variants_bad", 0))
